@@ -23,6 +23,25 @@ def rx_scenario(rng, tier, big=False):
         pre = d[:1]
     msgs = []
     for _ in range(rng.choice([1, 1, 2, 3])):
+        if rng.random() < 0.2:
+            # prior history: a well-formed message that its sender abandons after the First Frame and at least one Consecutive Frame (no
+            # timeout, no error so far); the First / Single Frame of the next message replaces it (ISO 15765-2: the new message wins).  The
+            # receiver must treat the new message like any other: "from ANY state" (DESIGN 6, C03; Lean `ff_opens_session`).
+            txdl0 = rng.choice(gen.TXDLS)
+            c0 = txdl0 - 1 - len(pre)
+            nfull = rng.choice([2, 3, 5, 17, 18, 33])
+            n0 = min((txdl0 - 2 - len(pre)) + c0 * nfull, mfs)
+            fr0 = ref.foreign_stream(gen.rand_payload(rng, n0), txdl0, prefix=pre, last='full') if n0 > txdl0 else None
+            if fr0 is not None and len(fr0) >= 3:
+                cut = rng.choice([2, 2, len(fr0) - 1, rng.randrange(2, len(fr0))])
+                if len(fr0) > 17 and rng.random() < 0.5:
+                    cut = 17        # abandoned after exactly 16 Consecutive Frames: the sequence number is back to 0, the block counter is not
+                fid, ext, _ = gen.rx_match_frame(a, b'')
+                msgs.append((None, fr0[:cut]))
+                for fr in fr0[:cut]:
+                    ops.append({'op': 'frame', 'i': 0, 'id': fid, 'ext': ext, 'data': fr})
+                    if rng.random() < 0.7:
+                        ops.append({'op': 'process', 'i': 0})
         txdl = rng.choice(gen.TXDLS)
         n = gen.rand_len(rng, txdl, len(pre))
         if big and rng.random() < 0.2:
@@ -52,7 +71,7 @@ def rx_scenario(rng, tier, big=False):
         ops.append({'op': 'process', 'i': 0})
         ops.append({'op': 'recv', 'i': 0})
         ops.append({'op': 'recv', 'i': 0})
-    return {'ops': ops, 'msgs': [(bytes(p), [bytes(f) for f in fr]) for p, fr in msgs]}
+    return {'ops': ops, 'msgs': [(None if p is None else bytes(p), [bytes(f) for f in fr]) for p, fr in msgs]}
 
 
 def judge_rx(sc, lines_in, impl_out):
@@ -66,18 +85,27 @@ def judge_rx(sc, lines_in, impl_out):
     out = []
     msgs = list(sc['msgs'])
     # expected event stream per message: after frame k -> FC? / delivery?
-    exp = []   # list of (frame bytes, expect_fc, expect_delivery)
+    exp = []   # list of (frame bytes, expect_fc, expect_delivery, interrupts an abandoned reception)
+    interrupts = False
     for payload, frames in msgs:
+        if payload is None:
+            # abandoned by its sender after frames[-1]: Flow Control as for any message, nothing delivered
+            for k, fr in enumerate(frames):
+                exp.append((fr, k == 0 or (bs > 0 and k % bs == 0), None, interrupts and k == 0))
+            interrupts = True
+            continue
         if len(frames) == 1:
-            exp.append((frames[0], False, payload))
+            exp.append((frames[0], False, payload, interrupts))
+            interrupts = False
             continue
         ncf = len(frames) - 1
         for k, fr in enumerate(frames):
             if k == 0:
-                exp.append((fr, True, None))
+                exp.append((fr, True, None, interrupts))
             else:
                 last = (k == ncf)
-                exp.append((fr, (bs > 0 and k % bs == 0 and not last), payload if last else None))
+                exp.append((fr, (bs > 0 and k % bs == 0 and not last), payload if last else None, False))
+        interrupts = False
     pos = -1
     pend_fc = 0
     recs = trace.records(lines_in, impl_out)
@@ -110,10 +138,12 @@ def judge_rx(sc, lines_in, impl_out):
                     out.append(('delivery', 'delivered payload differs from the original (%d vs %d bytes)' % (len(e['data']), len(exp[pos][2]))))
                 delivered.append(e['data'])
             elif e['k'] == 'err':
+                if 0 <= pos < len(exp) and exp[pos][3] and e['name'] in ('ReceptionInterruptedWithFirstFrameError', 'ReceptionInterruptedWithSingleFrameError'):
+                    continue        # the documented report of "a new message replaces the abandoned one"
                 out.append(('no_error', 'error %s on a well-formed stream' % e['name']))
     if pend_fc:
         out.append(('flow_control', 'Flow Control expected after frame %d never emitted' % pos))
-    want = [m[0] for m in msgs]
+    want = [m[0] for m in msgs if m[0] is not None]
     if delivered != want:
         out.append(('delivery', '%d payloads delivered, %d well-formed messages fed' % (len(delivered), len(want))))
     if recvd != want[:len(recvd)] or len(recvd) != len(want):
@@ -149,7 +179,7 @@ class C03(PropBase):
         cfg = trace.layer_cfg(sc)
         if not any(len(f) > 1 for _, f in sc['msgs']):
             return None
-        return (str(cfg['addr'].get('mode', 'asym')), cfg['params'].get('blocksize'), tuple((len(p), len(f), len(f[0]), len(f[-1])) for p, f in sc['msgs']))
+        return (str(cfg['addr'].get('mode', 'asym')), cfg['params'].get('blocksize'), tuple((-1 if p is None else len(p), len(f), len(f[0]), len(f[-1])) for p, f in sc['msgs']))
 
     def tally(self, dist, sc, lines_in, impl_out):
         PropBase.tally(self, dist, sc, lines_in, impl_out)
